@@ -16,18 +16,8 @@ func parseExpression(tokens []string) (*ExprNode, error) {
 		return nil, fmt.Errorf("empty token list")
 	}
 
-	// Handle CASE expression
-	if len(tokens) > 0 && strings.ToUpper(tokens[0]) == "CASE" {
-		node, remaining, err := parseCaseExpression(tokens)
-		if err != nil {
-			return nil, err
-		}
-		if len(remaining) > 0 {
-			return nil, fmt.Errorf("unexpected token after expression: %s", remaining[0])
-		}
-		return node, nil
-	}
-
+	// A leading CASE is an ordinary operand (parsePrimaryExpression), so that
+	// "CASE ... END * 2" or "CASE ... END > 1" continue after END.
 	node, remaining, err := parseOrExpression(tokens)
 	if err != nil {
 		return nil, err
